@@ -13,7 +13,7 @@ Commands:
   `dec <family> <dir> <hex frame> <hex|-|!>`  → `ok <idx> <k> v₁ … vₖ` | `err <class>`
         4th arg: what `zlib.decompress(frame[4+idw:])` returns on the Python side (`-` = empty
         string, `!` = zlib.error); used only if the selected schema is compressed
-  `dom <schema idx> <k> v₁ … vₖ`             → `dom 1|0`  (`inDomain`, the hypothesis of the theorems)
+  `dom <schema idx> <k> v₁ … vₖ`             → `dom 1|0 plain 1|0`  (`inDomain` / `plainDom`, the hypotheses of the theorems)
   `obf <key hex8> <hex|->`                    → `<hex>`      (`obfuscation.encode(data, key)`)
   `deobf <hex>`                               → `<hex|->`    (`obfuscation.decode(data)`)
 -/
@@ -105,7 +105,8 @@ def handle (table : List MsgSchema) (line : String) : String :=
     match idx.toNat?, k.toNat? with
     | some idx, some k =>
       match table[idx]?, parseVals k rest with
-      | some s, some (vs, []) => if inDomain s vs then "dom 1" else "dom 0"
+      | some s, some (vs, []) =>
+        (if inDomain s vs then "dom 1" else "dom 0") ++ (if plainDom vs s.fields vs then " plain 1" else " plain 0")
       | _, _ => "bad-op"
     | _, _ => "bad-op"
   | ["dec", fam, dir, hex, infl] =>
